@@ -341,7 +341,11 @@ func TestVerifPersist(t *testing.T) {
 			if i%10 == 9 {
 				ver = version + 1
 			}
-			vars = append(vars, variant{"damaged", d, ver, size, 0, false})
+			var later int64
+			if i%4 == 1 {
+				later = int64(r.next() % (1 << 44)) // loaded up to 4.9 h after the save: what had a deadline may be dead by then
+			}
+			vars = append(vars, variant{"damaged", d, ver, size, later, false})
 		}
 		// damage that keeps the framing intact: two bytes of one block header moved by one (a gob field delta shifted onto
 		// the neighbouring field makes a field "absent", e.g. the checksum), all pairs for the first three streams of the thorough tier, a sample otherwise
@@ -421,6 +425,10 @@ func TestVerifPersist(t *testing.T) {
 				}
 				if w != sv.expireWall && !(w == 0 && sv.expireWall == 0) {
 					tr.viol(fmt.Sprintf("C12: %s stream loaded key %d with wall-clock deadline %d, saved %d", vr.name, e.key, w, sv.expireWall))
+				}
+				if w != 0 && w < wall && vr.name != "clean" && vr.name != "clean-later" && vr.name != "smaller" {
+					// (for clean streams this is C11's "entries that have expired meanwhile are dropped")
+					tr.viol(fmt.Sprintf("C12: %s stream: key %d was loaded although its saved deadline (wall clock %d) had passed at load time %d: a lifetime it no longer had", vr.name, e.key, w, wall))
 				}
 			})
 			if vr.prefix && code == 0 {
